@@ -101,7 +101,7 @@ theorem rowOk_general (P : Params) (hP : ParamsOk P) (st : State) (s : Surface) 
   · intro k ch hk hkind hw
     rw [hF k hk] at hkind
     simp only [normR] at hkind
-    cases hsh : shadowed P s r k
+    cases hsh : shadowedRaw P s r k
     · exfalso
       simp only [hsh, Bool.false_eq_true, if_false] at hkind
       have hk' : (s r k).kind = .chr ch := by
@@ -109,28 +109,28 @@ theorem rowOk_general (P : Params) (hP : ParamsOk P) (st : State) (s : Surface) 
         rw [hkind]
       rcases w1 r k ch hr hk hk' with h | h <;> omega
     · cases k with
-      | zero => simp [shadowed] at hsh
+      | zero => simp [shadowedRaw] at hsh
       | succ k' =>
-        simp only [shadowed, Bool.and_eq_true, Bool.not_eq_true'] at hsh
+        simp only [shadowedRaw, Bool.and_eq_true, Bool.not_eq_true'] at hsh
         refine ⟨k', rfl, ?_, (hnotign k' (by omega) hsh.1).1⟩
         rw [hF k' (by omega)]
         simp [normR, hsh.2, isWide_rasterise, hsh.1]
   · intro k hk hwide _
     rw [hF k hk] at hwide
     simp only [normR] at hwide
-    cases hsh : shadowed P s r k
+    cases hsh : shadowedRaw P s r k
     · simp only [hsh, Bool.false_eq_true, if_false, isWide_rasterise] at hwide
       have hfit := w2 r k hr hk hwide
       refine ⟨hfit, ⟨0, ?_, hP.nul⟩, (hnotign k hk hwide).2⟩
       rw [hF (k + 1) hfit]
-      have : shadowed P s r (k + 1) = true := by
-        simp only [shadowed, hsh, hwide]; rfl
+      have : shadowedRaw P s r (k + 1) = true := by
+        simp only [shadowedRaw, hsh, hwide]; rfl
       simp [normR, this, nulCell]
     · simp [hsh, hnul] at hwide
   · intro k hk hnc
     rw [hF k hk] at hnc
     simp only [normR] at hnc
-    cases hsh : shadowed P s r k
+    cases hsh : shadowedRaw P s r k
     · simp only [hsh, Bool.false_eq_true, if_false] at hnc
       have himg : imgOf P (s r k) ≠ none := by
         intro hi
@@ -317,10 +317,10 @@ theorem frame_general (P : Params) (hP : ParamsOk P) (R : State) (scr : Screen) 
 
 theorem normR_blank (P : Params) (hP : ParamsOk P) (r c : Nat) : normR P blankSurf r c = defaultCell := by
   have hw : isWide P defaultCell = false := by simp [isWide, defaultCell, hP.sp]
-  have : shadowed P blankSurf r c = false := by
+  have : shadowedRaw P blankSurf r c = false := by
     cases c with
     | zero => rfl
-    | succ c => simp [shadowed, blankSurf, hw]
+    | succ c => simp [shadowedRaw, blankSurf, hw]
   simp [normR, this, blankSurf, rasterise, defaultCell]
 
 theorem display_blank (P : Params) (hP : ParamsOk P) (H W : Nat) :
